@@ -52,6 +52,9 @@ ChildlessMixes == {[t \in Threads |-> IF t = "t1" THEN a ELSE b] :
                       a \in {Op("close", "s1", NONE), Op("pclose", "prov", NONE), Op("cancel", "s1", NONE)},
                       b \in {Op("create", "s1", NONE), Op("get", "s1", "A")}}
 
+\* three goroutines asking one scope for the same scoped service
+TripleGetMixes == {[t \in Threads |-> Op("get", "s1", "A")]}
+
 PreNone == {}
 PreAB == {<<"s1", "B">>, <<"s1", "A">>, <<"s2", "B">>, <<"s2", "A">>}
 PreS1 == {<<"s1", "B">>, <<"s1", "A">>}
